@@ -206,6 +206,8 @@ pub struct NetInner {
     pub step: u64,
     /// transport calls made since the executor last started to poll a task (livelock detector)
     pub calls_this_poll: u64,
+    /// quinn reports a peer's reset exactly once: the read after it sees the end of the stream (`all_data_read`)
+    pub reset_once: bool,
     /// default send credit for pipes whose writer is `side`
     pub default_credit: [u64; 2],
     /// a close issued by `side` not yet delivered to the other end
@@ -247,6 +249,7 @@ impl Net {
             close_inflight: [None, None],
             faults: Vec::new(),
             calls_this_poll: 0,
+            reset_once: false,
         })))
     }
 
@@ -846,6 +849,7 @@ impl quic::RecvStream for SimRecv {
         self.net.tick("poll_data");
         let mut g = self.net.lock();
         let cerr = g.ends[self.side.idx()].conn_error();
+        let once = g.reset_once;
         let p = g.pipes.get_mut(&(self.id, self.side.other())).expect("pipe");
         if let Some(m) = &p.inject_internal {
             return Poll::Ready(Err(StreamErrorIncoming::ConnectionErrorIncoming { connection_error: ConnectionErrorIncoming::InternalError(m.clone()) }));
@@ -855,6 +859,9 @@ impl quic::RecvStream for SimRecv {
             return Poll::Ready(Err(StreamErrorIncoming::Unknown(Box::new(SimError("read after stop_sending")))));
         }
         if p.reset_delivered {
+            if p.reset_reported && once {
+                return Poll::Ready(Ok(None));
+            }
             p.reset_reported = true;
             return Poll::Ready(Err(StreamErrorIncoming::StreamTerminated { error_code: p.reset.unwrap() }));
         }
